@@ -27,6 +27,8 @@ def main():
     register_parallel_backend("threading", RecThr)
     register_parallel_backend("loky", RecProc)
     register_parallel_backend("multiprocessing", RecProc)
+    if job.get("default_backend") == "thr":
+        register_parallel_backend("threading", RecThr, make_default=True)
 
     def conv(k, v):
         if k == "b": return {"thr": "threading", "proc": "loky"}[v]
